@@ -23,6 +23,9 @@ def check_with_fallback(solver: z3.Solver, negated_goal):
     solver.set("timeout", FIRST_TIMEOUT_MS)
     r = solver.check()
     model = solver.model() if r == z3.sat else None
+    if r == z3.sat and not _model_ok(model, negated_goal):
+        r, model = z3.unknown, None      # z3 produced a model that does not satisfy the query (seen with seq.last_indexof)
+        STATS["bad_models"] = STATS.get("bad_models", 0) + 1
     smt2 = None
     if r != z3.unsat:
         try:
@@ -42,6 +45,8 @@ def check_with_fallback(solver: z3.Solver, negated_goal):
         solver.set("timeout", OBL_TIMEOUT_MS)
         r = solver.check()
         model = solver.model() if r == z3.sat else None
+        if r == z3.sat and not _model_ok(model, negated_goal):
+            r, model = z3.unknown, None
     solver.pop()
     solver.set("timeout", 5000)
     STATS["z3"] += 1
@@ -52,6 +57,18 @@ def check_with_fallback(solver: z3.Solver, negated_goal):
         return "sat", model, solver_used, smt2
     STATS["unknown"] += 1
     return "unknown", None, "z3+cvc5", smt2
+
+
+def _model_ok(model, negated_goal) -> bool:
+    """a counter-model is only believed if the negated goal evaluates to true in it (quantified goals: not decidable
+    by evaluation - accepted)"""
+    try:
+        v = model.eval(negated_goal, model_completion=True)
+    except z3.Z3Exception:
+        return True
+    if z3.is_false(v):
+        return False
+    return True
 
 
 def run_cvc5(smt2: str, timeout_s: int | None = None) -> str:
